@@ -214,3 +214,33 @@ def username_restore_cases(rng, n):
             ops.append('op sreply 0 %d %d %s %d - %s' % (i, now, pipeline.rnd40(rng), rcode, ' '.join(attrs)))
         out.append(('unrestore-%d' % k, cfg.conf_lines() + cfg.cfg_lines() + ops))
     return out
+
+
+def peer_type_reply_cases(rng, n):
+    """C06: replies delivered to clients of every transport type (UDP, TCP, TLS, DTLS) when the home server's reply
+    carries no Message-Authenticator, carries it last, or carries it first: Access-Accept/Reject/Challenge go out with a
+    verifying Message-Authenticator as FIRST attribute whatever the transport"""
+    out = []
+    for k in range(n):
+        cfg = _cfg1(rng)
+        c = cfg.clients[0]
+        t = [pipeline.T_UDP, pipeline.T_TCP, pipeline.T_TLS, pipeline.T_DTLS][k % 4]
+        if t in (pipeline.T_TLS, pipeline.T_DTLS):
+            c.xtype = t
+        else:
+            c.type = t
+        ops = []
+        now = 1000005
+        for i, (rcode, shape) in enumerate([(2, 'none'), (3, 'last'), (11, 'first'), (2, 'last'), (5, 'none')]):
+            code = 4 if rcode == 5 else 1
+            pkt, _ = _req(rng, cfg, 0, code, ident=50 + i, uname=b'bob@example.com')
+            ops.append('op cpkt 0 %d %s %s' % (now, pipeline.rnd40(rng), hx(pkt)))
+            ops.append('op wpass 0 %d %s' % (now, pipeline.rnd40(rng)))
+            attrs = ['18:' + hx(b'ok'), '24:' + hx(b'st')]
+            if shape == 'last':
+                attrs.append('80:auto')
+            elif shape == 'first':
+                attrs.insert(0, '80:auto')
+            ops.append('op sreply 0 %d %d %s %d - %s' % (i, now, pipeline.rnd40(rng), rcode, ' '.join(attrs)))
+        out.append(('ptype-%d' % k, cfg.conf_lines() + cfg.cfg_lines() + ops))
+    return out
